@@ -81,6 +81,13 @@ func main() {
 			fmt.Printf("%-28s fresh=%v  %s   %s\n", cl, inf.fresh, n, inf.reason)
 		}
 		fmt.Println(cnt)
+	case "sweep-record":
+		P, err := loadProgram(envOr("YQ_REPO", "/repo"), envOr("VERIF_DIR", "/verif"))
+		if err != nil {
+			fmt.Fprintln(os.Stderr, err)
+			os.Exit(2)
+		}
+		sweepRecord(P)
 	case "errsweep":
 		// development aid: run the error-propagation obligation on every yq function that returns an error
 		P, err := loadProgram(envOr("YQ_REPO", "/repo"), envOr("VERIF_DIR", "/verif"))
